@@ -1,6 +1,7 @@
 package sim
 
 import (
+	"math/rand/v2"
 	"crypto/sha256"
 	"encoding/hex"
 	"encoding/json"
@@ -102,7 +103,7 @@ var nontrivialProbes = map[string][]string{
 	"C14": {"http_"},
 	"C20": {"canceled_tree_checked"},
 	"C18": {"env_task_checked"},
-	"C19": {"output_task_checked"},
+	"C19": {"output_task_checked", "late_writer_checked"},
 	"C17": {"edit_checked_after_poll", "invalid_edit_checked_after_poll"},
 	"C15": {"schedulable_probe", "http_list"},
 	"C16": {"reload_while_queued", "reload_while_running"},
@@ -253,6 +254,12 @@ func workerSearch(t *testing.T, job *WorkerJob) {
 		}
 		faults := seed%2 == 1
 		sc := Generate(seed, job.Profile, faults)
+		if job.Profile == "C19" && k == 0 && job.OnlySeed == nil && sc.Late == nil {
+			// The first run of every worker process is a late-writer scenario: what it looks for (a buffer handed back
+			// and written to afterwards) depends on package-level free lists of the code under test, which are in
+			// their initial state only in a process that has not run anything yet.
+			sc = &Scenario{Profile: "C19", Late: genLate(gen{rand.New(rand.NewPCG(seed, 0x4c415445))}), Cfg: RunConfig{MaxSteps: 10}}
+		}
 		var res *RunResult
 		if raceBuild {
 			// a race report fails the (sub)test it is found in; the marker lets the orchestrator attribute it
